@@ -186,18 +186,23 @@ impl GCase {
                         let _ = writeln!(o, "#[{t}map_owned({cp}{e})]\n#[owned_{t}into_existing({cp}{e})]");
                     }
                 }
+                // with an own `where T: Clone` the instruction adds a DIFFERENT predicate: both must reach the impl
+                // (seed C11-03 dropped the own predicates whenever a where_clause instruction applied)
+                let wp = if self.own_where { "T: core::fmt::Debug" } else { "T: Clone" };
                 match self.where_instr {
                     // a default clause that does not help + dedicated clauses that do: the dedicated one must reach its counterpart's impls
                     3 => {
-                        let _ = writeln!(o, "#[where_clause(T: Sized)]\n#[where_clause({}| T: Clone)]\n#[where_clause({}| T: Clone)]", self.cp_path(false), self.cp_path(true));
+                        let _ = writeln!(o, "#[where_clause(T: Sized)]\n#[where_clause({}| {wp})]\n#[where_clause({}| {wp})]", self.cp_path(false), self.cp_path(true));
                     }
                     4 => {
-                        let _ = writeln!(o, "#[where_clause({}| T: Clone)]\n#[where_clause(T: Sized)]\n#[where_clause({}| T: Clone)]", self.cp_path(false), self.cp_path(true));
+                        let _ = writeln!(o, "#[where_clause({}| {wp})]\n#[where_clause(T: Sized)]\n#[where_clause({}| {wp})]", self.cp_path(false), self.cp_path(true));
                     }
-                    1 => o.push_str("#[where_clause(T: Clone)]\n"),
+                    1 => {
+                        let _ = writeln!(o, "#[where_clause({wp})]");
+                    }
                     2 => {
                         // a dedicated clause per counterpart
-                        let _ = writeln!(o, "#[where_clause({}| T: Clone)]\n#[where_clause({}| T: Clone)]", self.cp_path(false), self.cp_path(true));
+                        let _ = writeln!(o, "#[where_clause({}| {wp})]\n#[where_clause({}| {wp})]", self.cp_path(false), self.cp_path(true));
                     }
                     _ => {}
                 }
